@@ -82,5 +82,37 @@ fn main() {
         }
     }
     println!("entry defragmenter {:016x} 216", h);
+
+    // public constants and the behaviour at the documented size limits
+    println!("entry constants {:016x} 2", fnv(0, format!("{} {}", MAX_RECORD_LEN, MAX_RECORD_DATA).as_bytes()));
+    let mut h = 0u64;
+    let mut first = vec![0x0e, 0xff, 0xff, 0xff];
+    first.resize(16640, 0x5a);
+    let cont = vec![0xa5u8; 16640];
+    let mut p = TlsRecordsParser::default();
+    let mut steps = 0u64;
+    for k in 0..640 {
+        let data: &[u8] = if k == 0 { &first } else { &cont };
+        let r = TlsRawRecord { hdr: TlsRecordHeader { record_type: TlsRecordType(0x16), version: TlsVersion(0x0303), len: 16640 }, data };
+        let s = match p.parse_record(r) {
+            Ok(_) => "Ok".to_string(),
+            Err(e) => format!("{:?}", e.map(|e| e.code)),
+        };
+        h = fnv(h, s.as_bytes());
+        h = fnv(h, &[p.defrag_in_progress() as u8]);
+        steps += 1;
+    }
+    println!("entry defragmenter_size_cap {:016x} {}", h, steps);
+    // the record length cap on all three framers
+    let mut h = 0u64;
+    for len in [16639usize, 16640, 16641, 65535] {
+        let mut b = vec![0x17, 3, 3, (len >> 8) as u8, len as u8];
+        b.resize(5 + len, 7);
+        h = fnv(h, format!("{:?}", parse_tls_raw_record(&b).map(|x| x.1.data.len()).map_err(|e| e.map(|e| e.code))).as_bytes());
+        h = fnv(h, format!("{:?}", parse_tls_encrypted(&b).map(|x| x.1.msg.blob.len()).map_err(|e| e.map(|e| e.code))).as_bytes());
+        h = fnv(h, format!("{:?}", parse_tls_plaintext(&b).map(|x| x.1.msg.len()).map_err(|e| e.map(|e| e.code))).as_bytes());
+    }
+    println!("entry record_length_cap {:016x} 12", h);
+    total += 2 + steps + 12;
     println!("total {}", total + 216);
 }
